@@ -1,6 +1,7 @@
 """C20 - stand-alone array helpers agree with their NumPy definitions (nanops reducers for any thread count, nb_dot)."""
 import itertools
 import time
+import re
 import numpy as real_np
 import z3
 from ..values import SF, MIN_INT, Config, is_sym, conc_bool, b_and, b_or, b_not, ite, same, total, Unsupported, OutsideModel
@@ -41,6 +42,17 @@ def cases(tier, seed):
     for shape in ((2, 2), (3, 2), (2, 3)) if tier == "quick" else ((1, 1), (2, 2), (3, 2), (2, 3), (3, 3)):
         for dt in ("float64", "int64"):
             out.append({"kind": "dot", "shape": list(shape), "dtype": dt, "name": f"nb_dot/{dt}/shape={shape}"})
+    # pretty_cut: every value lands in the bin whose printed bounds contain it (bin edges enumerated, values symbolic)
+    int_bins = [[5, 10, 15], [10, 5], [3], [-4, 0, 4], [1, 1, 3]]
+    flt_bins = [[1.5, 2.5], [-3.5, 2.5], [-0.5, 0.5, 0.75], [2.0, 1.0], [-4.25, -1.5], [0.1, 0.3]]
+    if tier != "quick":
+        int_bins += [[-7, -3], [0], [2, 4, 6, 8]]
+        flt_bins += [[-0.75, -0.5, 0.0], [1e-3, 2.5e-3], [100.5], [-1.0, 1.0]]
+    for xdt in ("int64", "float64"):
+        for bins in int_bins + flt_bins:
+            bdt = "int64" if all(isinstance(b, int) for b in bins) else "float64"
+            out.append({"kind": "pretty_cut", "dtype": xdt, "bins": bins, "bins_dtype": bdt, "L": 2 if tier == "quick" else 3,
+                        "name": f"pretty_cut/{xdt} values/{bdt} bins {bins}", "witness": xdt == "int64" and bins == [-3.5, 2.5]})
     return out
 
 
@@ -54,6 +66,8 @@ def run_case(E, case):
         return run_var(E, case)
     if k == "dot":
         return run_dot(E, case)
+    if k == "pretty_cut":
+        return run_pretty_cut(E, case)
     raise Unsupported(k)
 
 
@@ -232,12 +246,106 @@ def run_dot(E, case):
 
 
 # ------------------------------------------------------------------ replay
+# ------------------------------------------------------------------ pretty_cut
+def parse_bin_label(label, integer_bins):
+    """printed bounds of a bin -> (lo, hi) as exact Fractions (None = unbounded); the printed number is read back the way it was
+    printed (repr round trip), middle bins are taken closed at both ends (the weakest reading of 'contains')"""
+    from fractions import Fraction
+
+    def numb(t):
+        t = t.strip()
+        return Fraction(int(t)) if re.fullmatch(r"-?\d+", t) else Fraction(float(t))
+    if label.startswith(" <= "):
+        return None, numb(label[4:])
+    if label.startswith(" > "):
+        lo = numb(label[3:])
+        return lo, None, "open"
+    if " - " in label:
+        a, b = label.split(" - ", 1)
+        return numb(a), numb(b)
+    v = numb(label)
+    return v, v
+
+
+def _contains(bounds, x):
+    """x (python number / z3 term / SF value part) within the printed bounds"""
+    lo, hi = bounds[0], bounds[1]
+    conds = []
+    if lo is not None:
+        lo_ = z3.RealVal(str(lo)) if is_sym(x) else lo
+        conds.append((x > lo_) if len(bounds) == 3 else (x >= lo_))
+    if hi is not None:
+        hi_ = z3.RealVal(str(hi)) if is_sym(x) else hi
+        conds.append(x <= hi_)
+    return b_and(*conds) if conds else True
+
+
+def run_pretty_cut(E, case):
+    t0 = time.time()
+    ut = E["util"]
+    dt = real_np.dtype(case["dtype"])
+    inp = Inputs()
+    xs = inp.values("x", case["L"], dt)
+
+    def body():
+        return ut["pretty_cut"](A(xs, dt).tag("input:x"), A(list(case["bins"]), case["bins_dtype"]).tag("input:bins"))
+    paths = run_paths(body)
+    bads = []
+    for pc, out, _ in paths:
+        pcz = b_and(*pc) if pc else True
+        codes = out.codes.cells if isinstance(out.codes, A) else list(out.codes)
+        cats = list(out.categories)
+        if len(codes) != len(xs):
+            bads.append(("one code per value", pcz))
+            continue
+        bounds = [parse_bin_label(c, True) for c in cats]
+        for i, (x, c) in enumerate(zip(xs, codes)):
+            if isinstance(x, SF):
+                isnull, xv = x.nan, x.v
+            else:
+                isnull, xv = False, x
+            ok_bin = b_or(*[b_and(num(c) == j, _contains(bounds[j], xv)) for j in range(len(cats))])
+            bads.append((f"value {i} lies within the printed bounds of its bin", b_and(pcz, b_not(isnull), b_not(ok_bin))))
+            bads.append((f"null value {i} gets no bin", b_and(pcz, isnull, b_not(num(c) == -1))))
+    wit = []
+    if case.get("witness"):
+        x0 = xs[0].v if isinstance(xs[0], SF) else xs[0]
+        wit = [("a value equal to a truncated negative edge", x0 == -3)]
+    return _finish(E, inp, bads, paths, t0, case, f"pretty_cut:{dt.kind}:{real_np.dtype(case['bins_dtype']).kind} bins", wit)
+
+
+def replay_pretty_cut(case, conc):
+    import groupby_lib.util as ru
+    dt = real_np.dtype(case["dtype"])
+    x = np_values(to_float_cells(conc["x"]), dt)
+    bins = list(case["bins"])
+    out = ru.pretty_cut(x, bins)
+    problems = []
+    for i, v in enumerate(x):
+        lab = out[i]
+        null = dt.kind == "f" and v != v
+        if null:
+            if isinstance(lab, str):
+                problems.append(f"null value {i} was put into bin {lab!r}")
+            continue
+        if not isinstance(lab, str):
+            problems.append(f"value {v!r} got no bin")
+            continue
+        b = parse_bin_label(lab, True)
+        from fractions import Fraction
+        if conc_bool(_contains(b, Fraction(float(v)) if dt.kind == "f" else Fraction(int(v)))) is not True:
+            problems.append(f"value {v!r} was put into bin {lab!r}")
+    return bool(problems), {"problems": problems, "x": jsonable([a.item() for a in x]), "bins": bins, "labels": [str(c) for c in out.categories]}
+
+
 def replay(case, conc, cand=None):
     import groupby_lib.nanops as rn
     import groupby_lib.util as ru
     conc = fix_nans(conc)
     k = case["kind"]
     try:
+        if k == "pretty_cut":
+            return replay_pretty_cut(case, conc)
         if k in ("reduce1d", "reduce2d"):
             dt = real_np.dtype(case["dtype"])
             arr = np_values(to_float_cells(conc["x"]), dt)
